@@ -126,9 +126,11 @@ class ForcePlatformData(Sized, BuildWriteable):
     def __eq__(self, __value: object) -> bool:
         return (
             isinstance(__value, ForcePlatformData)
-            and np.allclose(self.application_point, __value.application_point)
-            and np.allclose(self.force, __value.force)
-            and np.allclose(self.torque, __value.torque)
+            and np.allclose(
+                self.application_point, __value.application_point, equal_nan=True
+            )
+            and np.allclose(self.force, __value.force, equal_nan=True)
+            and np.allclose(self.torque, __value.torque, equal_nan=True)
         )
 
 
@@ -260,6 +262,7 @@ class ForcePlatformsDataBlock(Block):
             and self.frequency == o.frequency
             and self.n_frames == o.n_frames
             and np.array_equal(self._plat_map, o._plat_map)
+            and len(self._platforms) == len(o._platforms)
             and all(plat == oplat for plat, oplat in zip(self._platforms, o._platforms))
         )
 
